@@ -120,8 +120,12 @@ class Interp:
 
     # -- helpers -----------------------------------------------------------
     def wrap(self, v):
-        v &= self.mask
-        return v - (self.mask + 1) if v & self.half else v
+        w = v & self.mask
+        if w & self.half:
+            w -= self.mask + 1
+        if w != v:
+            self.stats['wrapped'] = self.stats.get('wrapped', 0) + 1
+        return w
 
     def tick(self, n=1):
         self.steps += n
